@@ -82,7 +82,14 @@ T ==
                  <<"fresh", "next_task", "pending">>,                             \* advanced, the yielded task not yet computed
                  <<"pending", "compute", "advanced">>,
                  <<"advanced", "next_value", "advanced_value">>,
-                 <<"advanced_value", "next_stop", "stopped">>, <<"stopped", "next_stop", "stopped">>}) \cup
+                 <<"advanced_value", "next_stop", "stopped">>, <<"stopped", "next_stop", "stopped">>,
+                 \* the consumer gives up early: the underlying generator is closed
+                 <<"fresh", "close", "closed">>, <<"pending", "close", "closed">>, <<"advanced", "close", "closed">>,
+                 <<"advanced_value", "close", "closed">>}) \cup
+  Tr("agenfail", {<<"none", "create", "fresh">>,                                \* an async generator whose body raises after an awaited step
+                 <<"fresh", "next_task", "pending">>,
+                 <<"pending", "compute_fail", "failed">>,                         \* the yielded task fails with the body's error
+                 <<"failed", "next_after", "failed_again">>}) \cup
   Tr("agvalue", {<<"none", "create", "made">>})                                  \* asynq.generator.Value
 
 Kinds == {x[1] : x \in T}
